@@ -28,7 +28,9 @@ def validate_request_prompt(grant, redirect_uri, redirect_fragment=False):
 
     if prompt == "none" and not end_user:
         raise LoginRequiredError(
-            redirect_uri=redirect_uri, redirect_fragment=redirect_fragment
+            state=grant.request.state,
+            redirect_uri=redirect_uri,
+            redirect_fragment=redirect_fragment,
         )
 
     prompts = prompt.split()
@@ -37,6 +39,7 @@ def validate_request_prompt(grant, redirect_uri, redirect_fragment=False):
         # an error is returned
         raise InvalidRequestError(
             "Invalid 'prompt' parameter.",
+            state=grant.request.state,
             redirect_uri=redirect_uri,
             redirect_fragment=redirect_fragment,
         )
